@@ -177,8 +177,8 @@ Fixpoint ipv_loop (ips : list string) (locals : list (string * expr)) (ps : list
       match p_size p with
       | ESym s =>
           if String.eqb s nvn then finish (st_locals st) (st_constraints st)
-          else if mem s ips
-          then (* the symbol is a declared parameter: the port does not define it, it has to agree with it *)
+          else if mem s ips || mem s (keys locals)
+          then (* the symbol is a declared parameter or local variable: the port does not define it, it has to agree with it *)
                finish (st_locals st) (st_constraints st ++ [mk_constraint nv (ESym s)])%list
           else match lookup s (st_locals st) with
                | None => finish (st_locals st ++ [(s, nv)])%list (st_constraints st)
